@@ -21,8 +21,20 @@ PROFILES = {
     "C11": dict(build=2, operator=7, bquery=5, uquery=3, copy=2, transform=2, rerep=2, fault=1,
                 mutate_after=0.1, t1=0.6, t2=0.5, repeat=0.2, query_after=0.3, pair_again=0.5, inject=0.45),
     "C10": dict(build=2, operator=6, bquery=4, uquery=5, copy=1, transform=3, rerep=2, fault=2,
-                mutate_after=0.15, t1=1.0, t2=0.7, repeat=0.35, query_after=0.6, pair_again=0.6),
+                mutate_after=0.15, t1=1.0, t2=0.7, repeat=0.35, query_after=0.6, pair_again=0.6, sandwich=0.45, scene=0.3),
 }
+
+
+def _center(val):
+    """Centre of the bounding box of the control points (exact for rational data)."""
+    xs = [x for ch in kernel.chains_of(val) for seg in ch for x, _ in seg]
+    ys = [y for ch in kernel.chains_of(val) for seg in ch for _, y in seg]
+    if not xs:
+        return (0, 0)
+    cx, cy = (min(xs) + max(xs)), (min(ys) + max(ys))
+    if all(isinstance(c, (int, Fraction)) for c in (cx, cy)):
+        return (Fraction(cx) / 2, Fraction(cy) / 2)
+    return (float(cx) / 2, float(cy) / 2)
 
 
 def _jp(p):
@@ -133,11 +145,42 @@ class Scheduler:
             self.pending.append({"macro": "compare_variant", "of": {"a": a, "b": dst}})
         return {"op": "build", "what": "value", "value": model.jsonable((tag, tuple(chain))), "dst": dst}
 
+    def inside_build(self, world, host=None):
+        """A small polygon strictly inside a component of an existing shape: pairs in a
+        containment relation (short-cut paths of | and &, True answers of `in`)."""
+        r = self.rng
+        names = [n for n in sorted(world.slots) if kernel.kind(world.slots[n].V) in ("S", "C", "D")
+                 and kernel.is_polygonal(world.slots[n].V)]
+        if not names:
+            return None
+        a = host if host in names else r.choice(names)
+        chains = [ch for ch in kernel.chains_of(world.slots[a].V) if kernel.chain_area(ch) > 0]
+        if not chains:
+            return None
+        ch = r.choice(chains)
+        outer = [seg[0] for seg in ch]
+        rational = all(isinstance(c, (int, Fraction)) for v in outer for c in v)
+        inner = gen.inner_polygon(r, outer, "frac" if rational else "float")
+        if inner is None:
+            return None
+        if not rational:
+            inner = [(float(x), float(y)) for x, y in inner]
+        val = ("S", gen.poly_chain(inner))
+        # keep clear of every boundary of the host (holes included)
+        if kernel.position(val, world.slots[a].V) != "disjoint":
+            return None
+        return {"op": "build", "what": "value", "value": model.jsonable(val),
+                "dst": self._slot_for_result(world)}
+
     def build_step(self, world):
         r = self.rng
         cfg = self.cfg
         if world.slots and r.random() < 0.15:
             st = self.variant_build(world)
+            if st is not None:
+                return st
+        if world.slots and r.random() < 0.2:
+            st = self.inside_build(world)
             if st is not None:
                 return st
         numeric = cfg["numeric"]
@@ -363,6 +406,12 @@ class Scheduler:
         if kind == "move":
             span = 1000 if big else 6
             v = (self._number(-span, span, numeric), self._number(-span, span, numeric))
+            others = [n for n in names if n != a]
+            if others and r.random() < 0.3:
+                # move onto (or next to) another object: the spatial relation between the two changes
+                ca, cb = _center(world.slots[a].V), _center(world.slots[r.choice(others)].V)
+                jitter = r.choice([0, 0, Fraction(1, 3), Fraction(-1, 2)])
+                v = (cb[0] - ca[0] + jitter, cb[1] - ca[1])
             return {"op": "move", "a": a, "v": _jp(v), "form": r.choice(["args", "tuple"])}
         if kind == "scale":
             if numeric == "float":
@@ -524,10 +573,42 @@ class Scheduler:
                 "vi": r.randrange(64)}
 
     # ------------------------------------------------------------- main loop
+    def prelude(self, world):
+        """Some runs start from a related scene: a composite host and a piece inside one of
+        its components (containment relations are rare among independently drawn shapes)."""
+        r = self.rng
+        numeric = self.cfg["numeric"] if self.cfg["numeric"] != "float" else "frac"
+        verts = gen.polygon(r, numeric, 4, 7, rmin=2.5, rmax=4.0, den=self._den())
+        chain = gen.poly_chain(verts)
+        kind = r.choice(["connected", "disjoint", "simple"])
+        host = ("S", chain)
+        if kind == "connected":
+            inner = gen.inner_polygon(r, verts, numeric)
+            if inner is not None:
+                host = ("C", (("S", chain), ("S", gen.reverse_chain(gen.poly_chain(inner)))))
+        elif kind == "disjoint":
+            x0, y0, x1, y1 = kernel.bbox([chain])
+            sh = int(math.ceil(x1 - x0)) + 2
+            verts2 = gen.polygon(r, numeric, 3, 6, den=self._den())
+            ch2 = gen.poly_chain([(x + sh, y) for x, y in verts2])
+            if kernel.position(("S", chain), ("S", ch2)) == "disjoint":
+                a1, a2 = kernel.chain_area(chain), kernel.chain_area(ch2)
+                host = ("D", (("S", chain), ("S", ch2)) if a1 >= a2 else (("S", ch2), ("S", chain)))
+        if self.cfg["numeric"] == "float":
+            host = model.map_value(host, lambda x, y: (float(x), float(y)))
+        d0 = self.next_slot
+        self.next_slot += 1
+        return [{"op": "build", "what": "value", "value": model.jsonable(host), "dst": d0},
+                {"macro": "inside_of", "of": {"a": d0}}]
+
     def next_step(self, world):
         if self.pending:
             return self.pending.pop(0)
         r = self.rng
+        if not world.steps and not world.slots and r.random() < self.profile.get("prelude", 0.25):
+            steps = self.prelude(world)
+            self.pending = steps[1:]
+            return steps[0]
         if len([n for n in world.slots if kernel.kind(world.slots[n].V) != "J"]) < 2:
             return self.build_step(world)
         # targeting aid: two heap objects share mutable state -> transform one of them now
@@ -558,6 +639,19 @@ class Scheduler:
             step = getattr(self, kind + "_step")(world)
             if step is None:
                 continue
+            if kind == "transform" and r.random() < p.get("scene", 0.1):
+                steps = self.scene_macro(world)
+                if steps:
+                    self.pending = steps[1:] + self.pending
+                    return steps[0]
+            if kind == "transform" and r.random() < p.get("sandwich", 0.2):
+                # ask, transform, ask the same again: state carried across the transformation
+                q = self._query_about(world, step["a"])
+                if q is not None:
+                    q2 = dict(q)
+                    q2["t1"] = True
+                    self.pending = [step, {"macro": "same_query", "of": q2}] + self.pending
+                    return q
             if kind == "transform" and r.random() < p.get("query_after", 0.3):
                 self.pending.append({"macro": "query_after", "of": step})
             if kind in ("operator", "bquery") and "b" in step and step["op"] in ops.BINARY_OPERATORS + ("in_shape", "eq", "ne") \
@@ -571,9 +665,112 @@ class Scheduler:
             return step
         return self.build_step(world)
 
+    def contained_pairs(self, world):
+        """(container, inner) pairs of heap shapes: boundaries clear of each other and a
+        vertex of `inner` inside `container` (decided by the kernel on model values)."""
+        names = self._shapes(world, defined=True)
+        out = []
+        for a in names:
+            va = world.slots[a].V
+            reg = None
+            for b in names:
+                if a == b:
+                    continue
+                vb = world.slots[b].V
+                x0, y0, x1, y1 = kernel.bbox(kernel.chains_of(va))
+                u0, w0, u1, w1 = kernel.bbox(kernel.chains_of(vb))
+                if u0 < x0 or u1 > x1 or w0 < y0 or w1 > y1:
+                    continue
+                if kernel.position(va, vb) != "disjoint":
+                    continue
+                if reg is None:
+                    reg = kernel.Region(va)
+                p = kernel.chains_of(vb)[0][0][0]
+                if reg.member(p) is True:
+                    out.append((a, b))
+        return out
+
+    def scene_macro(self, world):
+        """Ask about a pair, apply the SAME transformation to both, ask again."""
+        r = self.rng
+        names = self._shapes(world, defined=True)
+        if len(names) < 2:
+            return None
+        x = r.choice(names)
+        q = None
+        pairs = self.contained_pairs(world) if r.random() < 0.75 else []
+        if pairs:
+            a, b = r.choice(pairs)
+            q = self._oracle_flags({"op": "in_shape", "a": a, "b": b})
+        for _ in range(0 if q is not None else 4):
+            q = self._query_about(world, x)
+            if q is not None and "b" in q and q["a"] != q["b"] \
+                    and kernel.kind(world.slots[q["a"]].V) in ("S", "C", "D") \
+                    and kernel.kind(world.slots[q["b"]].V) in ("S", "C", "D"):
+                break
+            q = None
+        if q is None:
+            return None
+        t = self.transform_step(world, target=q["a"])
+        if t is None or t["op"] == "invert":
+            return None
+        t2 = dict(t)
+        t2["a"] = q["b"]
+        q2 = dict(q)
+        q2.pop("fault", None)
+        q2["t1"] = q2["t2"] = True
+        return [q, t, t2, q2]
+
+    def _query_about(self, world, target):
+        """A unary or binary query in which `target` takes part."""
+        r = self.rng
+        if target not in world.slots:
+            return None
+        if r.random() < 0.5:
+            for _ in range(4):
+                st = self.uquery_step(world, target=target)
+                if st is not None and st["op"] not in ("str", "repr", "plot", "points"):
+                    return st
+            return None
+        k = kernel.kind(world.slots[target].V)
+        others = [n for n in self._shapes(world) if n != target]
+        if not others or k == "J":
+            return None
+        other = r.choice(others)
+        kind = r.choice(["in_shape", "in_shape", "in_shape", "eq", "contains_jordan"])
+        a, b = (target, other) if r.random() < 0.5 else (other, target)
+        ka, kb = kernel.kind(world.slots[a].V), kernel.kind(world.slots[b].V)
+        if kind == "contains_jordan":
+            if ka in ("E", "W") or kb in ("E", "W"):
+                kind = "in_shape"
+            else:
+                return self._oracle_flags({"op": kind, "a": a, "b": b, "k": self._jordan_index(world, b),
+                                           "boundary": r.random() < 0.7})
+        if kind == "eq" and ka in ("E", "W") and kb not in ("E", "W"):
+            a, b = b, a
+        return self._oracle_flags({"op": kind, "a": a, "b": b})
+
     def resolve_macro(self, world, macro):
         """Turn a queued macro into a concrete step (needs the heap after the previous step)."""
         of = macro["of"]
+        if macro["macro"] == "inside_of":
+            return self.inside_build(world, host=of["a"])
+        if macro["macro"] == "same_query":
+            for key in ("a", "b"):
+                if key in of and of[key] not in world.slots:
+                    return None
+            st = dict(of)
+            st.pop("fault", None)
+            if st["op"] in ("in_point", "contains_point"):
+                # the point asked before the transformation may now be too close to the
+                # boundary for a crisp answer: draw a new admissible one
+                v = world.slots[st["a"]].V
+                exact = (not isinstance(v, str)) and kernel.is_rational(v) and kernel.is_polygonal(v)
+                pts = gen.query_points(self.rng, [v], 1, exact or isinstance(v, str), self.cfg["numeric"])
+                if not pts:
+                    return None
+                st["p"] = _jp(pts[0])
+            return st
         if macro["macro"] == "compare_variant":
             a, b = of["a"], of["b"]
             if a not in world.slots or b not in world.slots:
